@@ -2336,6 +2336,8 @@ DLLIMPORT int cfg_opt_rmnsec(cfg_opt_t *opt, unsigned int index)
 	if (!val)
 		return CFG_FAIL;
 
+	val->section->path = NULL; /* Global search path */
+
 	if (index + 1 != n) {
 		/* not removing last, move the tail */
 		memmove(&opt->values[index], &opt->values[index + 1], sizeof(opt->values[index]) * (n - index - 1));
